@@ -246,7 +246,7 @@ int main(int argc, char **argv) {
                     }
                 }
             }
-            h_n = 0; errno = 0; h_fault_kind = 0;
+            h_n = 0; errno = H_ERRNO_PRE(id); h_fault_kind = 0;
             ftruncate(outfd, 0); lseek(outfd, 0, SEEK_SET);
             fprintf(evout, "#%ld\n", id); fflush(evout);
             if (!sigsetjmp(h_jb, 1)) {
